@@ -94,13 +94,30 @@ func init() {
 		evs := get[[]evt](req, "events")
 		rd := &evReader{evs: evs}
 		it := dockerlog.ParseLog(rd, otelstorage.Attrs(pcommon.NewMap()))
-		var recs []map[string]any
+		// A consumer keeps records while it pulls the next ones (mergeIter, groupEntries do): bodies are retained as
+		// delivered and encoded only after the stream ended, so a body that aliases a reused buffer shows.
+		type kept struct {
+			ts   int64
+			body string
+		}
+		var keep []kept
 		var rec logstorage.Record
 		for it.Next(&rec) {
-			recs = append(recs, map[string]any{"ts": int64(rec.Timestamp), "line": s64(rec.Body)})
-			if len(recs) > 100000 {
+			keep = append(keep, kept{int64(rec.Timestamp), rec.Body})
+			if len(keep) > 100000 {
 				break
 			}
+		}
+		// A consumer may ask again after the end (rangeAggIterator does on every step): the answer must stay "no more
+		// records", and the error must stay.
+		for k := 0; k < 3 && len(keep) <= 100000; k++ {
+			if it.Next(&rec) {
+				keep = append(keep, kept{int64(rec.Timestamp), rec.Body})
+			}
+		}
+		recs := make([]map[string]any, 0, len(keep))
+		for _, r := range keep {
+			recs = append(recs, map[string]any{"ts": r.ts, "line": s64(r.body)})
 		}
 		end := classifyStreamErr(it.Err())
 		_ = it.Close()
